@@ -114,6 +114,8 @@ def c02(c):
 C06_THEOREMS = [
     "rk4_interp_left", "rk4_interp_right", "rk4_dense_ends", "rk23_interp_left", "rk23_interp_right",
     "dopri5_interp_left", "dopri5_interp_right", "dop853_interp_left", "dop853_interp_right", "C06_dopri5_endpoints",
+    "ContM.c06_not_enabled", "ContM.c06_cover", "ContM.c06_first_hit", "ContM.c06_many_no_panic", "ContM.c06_from_segments",
+    "ContM.c06_constant", "SolOutM.c06_collect",
 ]
 
 
@@ -151,15 +153,19 @@ def generic_monitor(c, name, args, kind, timeout=1800, describe=None):
 
 def c06(c):
     common_proof(c, "IvpModel.Props.C06", C06_THEOREMS)
-    if c.build_harness():
+    if c.build_harness() and c.build_driver():
+        c.stream("xcont", ["xcont", c.seed, 1500 if c.tier == "quick" else 30000], "cont")
+        handler_stream(c)
         n = 120 if c.tier == "quick" else 1500
         generic_monitor(c, "dense_check", ["dense-check", c.seed, n], "dense")
     c.cov["samples"] += [
         {"theorem": "dopri5_interp_right", "statement": "interpolate (xold+h) xold h (dense y1 y h k1 k2).cont0..3 c4 = y1 ∧ (dense …).cont0 = y, for all n, vectors, xold, h ≠ 0"},
         {"theorem": "rk23_interp_right", "statement": "interpolate (xold+h) … (dense y Ka Kb Kc Kd) = stages_loop3 y h Ka Kb Kc  (the accepted state the stage code computed)"},
+        {"theorem": "ContM.c06_cover", "statement": "Chain fwd x (s :: r) → sol_span = (x, end) ∧ x ≠ end ∧ (min x end ≤ t ≤ max x end → ∃ s' ∈ segs, sol t = ok s'.id ∧ t within tol of s') ∧ (t outside → sol t = OutOfRange)   (both directions, any number of steps)"},
+        {"theorem": "SolOutM.c06_collect", "statement": "step … = some (s', f) → s'.denseSegs = if collectDense ∧ x ≠ xold ∧ ip.h ≠ 0 then s.denseSegs.push (ip.xold, ip.h) else s.denseSegs"},
     ]
-    c.partial = ["Radau and BDF interpolants, BDF change_d, and the segment lookup of ContinuousOutput/Solution::sol are covered by the "
-                 "dense_check monitor on the implementation (all six methods), not yet by theorems",
+    c.partial = ["Radau and BDF interpolants and BDF change_d are covered by the dense_check monitor on the implementation (all six methods), not yet by theorems",
+                 "the segment lookup theorems take the chain property of the collected segments (each starts where the previous one ended) as hypothesis: it follows from the callback protocol (C19) and c06_collect in exact arithmetic; in binary64 `xold + h` is recomputed by the lookup from the stored pair, which X-cont and dense_check exercise",
                  "binary64 rounding at the ends ('to rounding'): theorems are exact-arithmetic"]
 
 
@@ -190,7 +196,7 @@ C17_THEOREMS = [
     "Mat.banded_wf", "Mat.lower_upper_wf", "Mat.diagonal_wf", "Mat.fromVec_wf", "Mat.square_wf", "Mat.square_buffer_allocated",
     "Mat.constructors_readable", "Mat.band_index_inj", "Mat.full_index_inj", "Mat.set_panics", "Mat.set_spec",
     "Mat.addSub_dense", "Mat.add_dense", "Mat.sub_dense", "Mat.addSub_mismatch", "Mat.componentAddSub_dense",
-    "Mat.componentMul_dense", "Mat.isIdentity_of_identity",
+    "Mat.componentMul_dense", "Mat.isIdentity_of_identity", "Mat.isIdentity_iff_dense",
 ]
 
 
